@@ -14,7 +14,8 @@ nest / permitted-subclass / record entry or a signature keeps its own field; eve
 `remap` follows `remap.rs` impl by impl **as it is**, including what it leaves alone or drops:
 
 * `ClassSignature` / `FieldSignature` / `MethodSignature`: returned unchanged (`return Ok(self)` before the `todo!`);
-* `InvokeDynamic` / `ConstantDynamic`: `name` and `descriptor` copied (`// TODO: remap`), handle and arguments remapped;
+* `InvokeDynamic` / `ConstantDynamic`: `name` copied (`// TODO: remap`); descriptor, handle and arguments remapped
+  (the descriptor since the commit "jar remapping renames the classes in invokedynamic and dynamic-constant descriptors");
 * `ElementValue::Enum`: the type descriptor is remapped, `const_name` copied (`// TODO: this one needs remapping!`);
 * `ElementValuePair.name` copied (it names a method of the annotation interface);
 * `InnerClass.inner_name` copied (`map_inner_class_name` returns its argument);
@@ -338,15 +339,18 @@ mutual
     | .handle h => (remapHandle r h).map .handle
     | .methodType d => (r.mapDesc d).map .methodType
     | .dynamic c => (remapConstDyn r c).map .dynamic
-  /-- `impl MappableWithClassName for ConstantDynamic`: `name` and `descriptor` copied -/
+  /-- `impl MappableWithClassName for ConstantDynamic`: `name` copied -/
   def remapConstDyn (r : Remapper) : ConstDyn → Option ConstDyn
     | .mk n d h args =>
-      match remapHandle r h with
+      match r.mapDesc d with
       | none => none
-      | some h' =>
-        match remapLoadables r args with
+      | some d' =>
+        match remapHandle r h with
         | none => none
-        | some args' => some (.mk n d h' args')
+        | some h' =>
+          match remapLoadables r args with
+          | none => none
+          | some args' => some (.mk n d' h' args')
   def remapLoadables (r : Remapper) : List Loadable → Option (List Loadable)
     | [] => some []
     | l :: ls =>
@@ -376,19 +380,22 @@ def remapFrame (r : Remapper) : Frame → Option Frame
       | none => none
       | some ss' => some (.full ls' ss')
 
-/-- `impl MappableWithClassName for Instruction` (with `InvokeDynamic` inlined: `name`, `descriptor` copied) -/
+/-- `impl MappableWithClassName for Instruction` (with `InvokeDynamic` inlined: `name` copied) -/
 def remapInsn (r : Remapper) : Insn → Option Insn
   | .plain o => some (.plain o)
   | .ldc l => (remapLoadable r l).map .ldc
   | .field op f => (mapFieldRef r f).map (.field op)
   | .method op m => (mapMethodRef r m).map (.method op)
   | .indy n d h args =>
-    match remapHandle r h with
+    match r.mapDesc d with
     | none => none
-    | some h' =>
-      match remapLoadables r args with
+    | some d' =>
+      match remapHandle r h with
       | none => none
-      | some args' => some (.indy n d h' args')
+      | some h' =>
+        match remapLoadables r args with
+        | none => none
+        | some args' => some (.indy n d' h' args')
   | .cls op n => (mapClassAny r n).map (.cls op)
 
 /-- `impl MappableWithClassName for InstructionListEntry` -/
